@@ -7,7 +7,8 @@ EXPLANATION = (
     "D1 hash-by-type table: Distfile -> Digest::hash_file, Patchfile -> Digest::hash_patch, identical in verify_checksum_internal and calculate_checksum; the patch hash skips exactly the lines containing $NetBSD (filter-shape rule shared with C13); "
     "D2 verdicts are full equality tests (String != String on computed vs recorded hash, u64 != on file length vs recorded size) with error payloads in (expected, actual) order; "
     "absent size -> MissingSize, no matching digest -> MissingChecksum, digest filter by PartialEq on Digest; I/O and digest errors propagated with `?`; "
-    "D3 find_entry grows the candidate key by prepending components in reverse order and returns the first hit, exhaustion -> NotFound; the Distinfo::verify_* wrappers call find_entry first and propagate its error; `the first checksum with the requested digest, else MissingChecksum` is decided on the first_match normal form (for-loop with continue, or .iter().find(..) with let-else); Distinfo::verify_checksums may delegate to Entry::verify_checksums of the entry found for the same path")
+    "D3 find_entry grows the candidate key by prepending components in reverse order and returns the first hit, exhaustion -> NotFound; the Distinfo::verify_* wrappers call find_entry first and propagate its error; `the first checksum with the requested digest, else MissingChecksum` is decided on the first_match normal form (for-loop with continue, or .iter().find(..) with let-else); Distinfo::verify_checksums may delegate to Entry::verify_checksums of the entry found for the same path"
+    " D4-DIGEST-DISPATCH each algorithm dispatches to its own hasher and patches to the patch-filtering routine: C13's D1-DISPATCH verdicts are shared instances.")
 NOT_DECIDED = ["digest correctness (C13 / RustCrypto)", "file-system semantics (File::open, metadata().len())", "Path component semantics"]
 CONFIG_SENSITIVE = False
 DESUGAR = True
@@ -308,3 +309,7 @@ def run(ctx):
 
     # ---- the lookups verification starts from
     distinfo_accessors(ctx, "D5-ACCESSOR", only=("get_distfile", "get_patchfile"))
+
+    # ---- D4-DIGEST-DISPATCH: verification compares against Digest::hash_file / hash_patch of the recorded algorithm: each algorithm must dispatch
+    #      to its own hasher and, for patches, to the patch-filtering routine (C13's D1-DISPATCH verdicts, shared)
+    share_rules(ctx, "C13", ("D1-DISPATCH",), "D4-DIGEST-DISPATCH", "digest::Digest::hash_patch", 12)
